@@ -202,22 +202,47 @@ func NewFakeChannel() (bus.Channel, *FakeEndPoint) {
 
 // HelperImpl is an object a client hosts itself and lends to a Desk.
 type HelperImpl struct {
-	Name string
-	mu   sync.Mutex
-	Exec map[uint64]int
+	Name  string
+	mu    sync.Mutex
+	Exec  map[uint64]int
 	Pokes int
 	// Gate, if set, is called inside Assist before returning (may block).
 	Gate func(token uint64)
+	// ActivateHook, if set, runs inside Activate and decides its result.
+	ActivateHook func(bus.Activation) error
+	// Act is the activation the object received (its Terminate lets the object end itself).
+	Act        bus.Activation
+	terminated int64
+	// QuitOn: Assist called with this token terminates the object itself before answering.
+	QuitOn uint64
 }
 
 // NewHelper returns a helper implementation.
 func NewHelper(name string) *HelperImpl { return &HelperImpl{Name: name, Exec: map[uint64]int{}} }
 
-// Activate does nothing.
-func (h *HelperImpl) Activate(bus.Activation, probe.HelperSignalHelper) error { return nil }
+// Activate keeps the activation and runs the hook, if any.
+func (h *HelperImpl) Activate(a bus.Activation, _ probe.HelperSignalHelper) error {
+	h.mu.Lock()
+	h.Act = a
+	hook := h.ActivateHook
+	h.mu.Unlock()
+	if hook != nil {
+		return hook(a)
+	}
+	return nil
+}
 
-// OnTerminate does nothing.
-func (h *HelperImpl) OnTerminate() {}
+// OnTerminate counts its invocations.
+func (h *HelperImpl) OnTerminate() { atomic.AddInt64(&h.terminated, 1) }
+
+// SetQuitOn sets the token on which Assist ends the object.
+func (h *HelperImpl) SetQuitOn(t uint64) { h.mu.Lock(); h.QuitOn = t; h.mu.Unlock() }
+
+// GetQuitOn returns that token.
+func (h *HelperImpl) GetQuitOn() uint64 { h.mu.Lock(); defer h.mu.Unlock(); return h.QuitOn }
+
+// Terminated returns how many times the termination hook ran.
+func (h *HelperImpl) Terminated() int { return int(atomic.LoadInt64(&h.terminated)) }
 
 // HF is the function a helper computes.
 func HF(name string, token uint64, arg string) string { return name + "|" + F(token, arg) }
@@ -227,9 +252,14 @@ func (h *HelperImpl) Assist(token uint64, arg string) (string, error) {
 	h.mu.Lock()
 	h.Exec[token]++
 	g := h.Gate
+	quit := h.QuitOn != 0 && token == h.QuitOn
+	act := h.Act
 	h.mu.Unlock()
 	if g != nil {
 		g(token)
+	}
+	if quit && act.Terminate != nil {
+		act.Terminate()
 	}
 	return HF(h.Name, token, arg), nil
 }
